@@ -22,7 +22,7 @@ structure Switches where
   closedForms : Bool := true      -- closed-form radial cases (off: always quadrature)
   radialScreen : Bool := true     -- skip a primitive when estimate_type2 ≤ tolerance
   pairScreen : Bool := true       -- per-l screen of compute_shell_pair
-  prescreen : Bool := true        -- type-1 integrand prescreen (start/end window)
+  prescreen : Bool := true        -- type-1 integrand prescreen (first/last significant grid point)
   finest : Bool := false          -- never accept a quadrature level early (tolerance 0)
 deriving Repr, DecidableEq
 
@@ -200,27 +200,23 @@ def radType1 (E : Engine α) (sw : Switches) (pwf : Nat → α → α) (maxPow :
         let bes := g.x.map fun r => besselAt E maxL (((2 : Nat) : α) * par.p a b * par.P a b) r
         -- intValues(l, i) = Utab[i] * besselValues(l, i); prescreen
         let iv0 := fun (l i : Nat) => utab[i]! * (bes[i]!)[l]!
+        -- prescreen: integrate between the first and the last grid point where any integrand is non-negligible
         let (start, stop) : Nat × Nat := Id.run do
-          let mut start := 0
-          let mut stop := size - 1
+          let mut first : Option Nat := none
+          let mut last := 0
           if sw.prescreen then
-            let mut foundStart := false
-            let mut tooSmall := false
-            let mut i := 0
-            let mut go := true
-            while go && i < size do
+            for i in [0:size] do
+              let mut significant := false
               let mut l := offset
               while l ≤ maxL do
-                tooSmall := tooSmall || (iv0 l i < E.tol)
+                significant := significant || decide (E.tol ≤ Flt.abs (iv0 l i))
                 l := l + 2
-              if !tooSmall && !foundStart then
-                foundStart := true
-                start := i
-              if tooSmall && foundStart then
-                stop := i - 1
-                go := false
-              i := i + 1
-          return (start, stop)
+              if significant then
+                if first.isNone then first := some i
+                last := i
+          match first with
+          | some f => return (f, last)
+          | none => return (0, size - 1)
         let expv := g.x.map fun r =>
           Flt.exp (-(par.p a b) * (r * (r - ((2 : Nat) : α) * par.P a b) + par.P2 a b))
         let iv := fun (l i : Nat) => iv0 l i * expv[i]!
